@@ -472,6 +472,7 @@ def execute(plan, tape):
             seen_state_change = True
     _probes(res, hist)
     res.digest = digest_of(hist, ctl.log, sim.log, res.vclass, res.signature, res.fps)
+    res.rdigest = digest_of(hist, ctl.log, res.vclass, res.signature, res.fps)
     return res
 
 
